@@ -418,12 +418,22 @@ func wrapForDocs(s string) string {
 	return s
 }
 
+var yamlPlainSafe = regexp.MustCompile("^[a-zA-Z][a-zA-Z0-9]*$")
+
+var yamlReservedWords = map[string]bool{
+	"true": true, "false": true, "null": true,
+	"yes": true, "no": true, "on": true, "off": true, "y": true, "n": true,
+}
+
 // simplistic YAML formatting of a value
 func yamlf(a any) string {
 	switch v := a.(type) {
 	case string:
-		pat := regexp.MustCompile("^[a-zA-z0-9]+$")
-		if pat.MatchString(v) {
+		// Only text that YAML is certain to read back as the same string may go
+		// unquoted: a letter followed by letters and digits, and not one of the
+		// words YAML resolves to a bool or null. Everything else (digits-only,
+		// 0x1F, 1e3, true, null, leading punctuation, ...) is quoted below.
+		if yamlPlainSafe.MatchString(v) && !yamlReservedWords[strings.ToLower(v)] {
 			return v
 		}
 		hasSingleQuote := strings.Contains(v, "'")
